@@ -45,6 +45,83 @@ pub fn judge(case: &Case) -> Outcome {
     }
 }
 
+/// A disjunction of identifiers, each a conjunction of a (cast) numeric predicate on n / m and a
+/// string predicate, some of them and-ed in the condition with a comparison of a cast field and a
+/// constant (either operand order): the shape the optimiser turns into matrix rows. Returns
+/// (condition, identifier blocks, documents).
+pub fn matrix_shaped(blocks: &[(u8, &str, i64, u8, u8)], vals: &[(u8, i64)], negate: bool) -> (String, String, Vec<DObj>) {
+            // identifiers I0..Ik, each a conjunction of a (cast) numeric predicate on n / m and a
+            // string predicate; condition I0 or I1 or ..
+            let mut body = String::new();
+            let mut names = vec![];
+            for (i, (kind, op, c, other, wrap)) in blocks.iter().enumerate() {
+                let field = if kind % 2 == 0 { "n" } else { "m" };
+                let pred = match kind / 2 {
+                    0 => format!("    int({field}): '{op}{c}'\n"),
+                    1 => format!("    flt({field}): '{op}{c}.5'\n"),
+                    _ => format!("    {field}: '{op}{c}'\n"),
+                };
+                let second = match other {
+                    0 => "    f1: a\n".to_string(),
+                    1 => format!("    int({}): {}\n", if field == "n" { "m" } else { "n" }, c + 1),
+                    2 => "    f1: 'b*'\n".to_string(),
+                    _ => String::new(),
+                };
+                body.push_str(&format!("  I{i}:\n{pred}{second}"));
+                // the identifier alone, or and-ed in the condition with a comparison of a cast field
+                // and a constant, written field-first or constant-first (a matrix row that holds a
+                // comparison cell)
+                let cop = if *op == "=" { "==" } else { op };
+                let other_field = if field == "n" { "m" } else { "n" };
+                names.push(match wrap {
+                    4 => format!("(I{i} and int({other_field}) {cop} {})", c + 1),
+                    5 => format!("(I{i} and {} {cop} int({other_field}))", c + 1),
+                    6 => format!("({c}.5 {cop} flt({field}) and I{i})"),
+                    7 => format!("(I{i} and {} {cop} int({field}))", c - 1),
+                    8 => format!("(flt({other_field}) {cop} {c}.5 and I{i})"),
+                    _ => format!("I{i}"),
+                });
+            }
+            // now and then a field-to-field comparison (only the condition can express it) joins
+            // the chain
+            let mut operands = names.clone();
+            if let Some((k, op, _, _, _)) = blocks.first() {
+                match k % 3 {
+                    0 => operands.insert(1, format!("int(n) {} int(m)", if *op == "=" { "==" } else { op })),
+                    1 => operands.push(format!("flt(m) {} flt(n)", if *op == "=" { "==" } else { op })),
+                    _ => {}
+                }
+            }
+            let cond = operands.join(" or ");
+            let cond = if negate { format!("not ({cond})") } else { cond };
+            let mut docs = vec![DObj::default()];
+            for (k, v) in vals {
+                let val = match k {
+                    0 => DocVal::Int(*v),
+                    1 => DocVal::UInt(v.unsigned_abs()),
+                    2 => DocVal::Str(v.to_string()),
+                    3 => DocVal::Float(*v as f64 + 0.5),
+                    4 => DocVal::Str(format!("{}.5", v)),
+                    5 => DocVal::Bool(*v % 2 == 0),
+                    6 => DocVal::Float(*v as f64),
+                    _ => DocVal::s("abc"),
+                };
+                for (a, b) in [("n", "m"), ("m", "n")] {
+                    docs.push(DObj(vec![(a.to_string(), val.clone()), ("f1".to_string(), DocVal::s("a"))]));
+                    docs.push(DObj(vec![(a.to_string(), val.clone()), (b.to_string(), DocVal::Int(*v + 1)), ("f1".to_string(), DocVal::s("bc"))]));
+                }
+            }
+            (cond, body, docs)
+}
+
+pub fn matrix_shaped_strategy() -> impl Strategy<Value = (Vec<(u8, &'static str, i64, u8, u8)>, Vec<(u8, i64)>, bool)> {
+    (
+        prop::collection::vec((0u8..6, prop::sample::select(vec!["=", ">", ">=", "<", "<="]), -2i64..8, 0u8..4, 0u8..10), 3..=5),
+        prop::collection::vec((0u8..8, -2i64..9), 6),
+        any::<bool>(),
+    )
+}
+
 fn rule_texts(ident_body: &str, cond: &str) -> Vec<String> {
     let mk = |c: &str| {
         format!("detection:\n  A:\n{ident_body}  condition: {c}\ntrue_positives: []\ntrue_negatives: []\n")
@@ -381,76 +458,10 @@ pub fn run(tier: &str, seed: u64) -> i32 {
         &mut report,
         6,
         if tier == "thorough" { 60_000 } else { 4_000 },
-        || {
-            (
-                prop::collection::vec((0u8..6, prop::sample::select(vec!["=", ">", ">=", "<", "<="]), -2i64..8, 0u8..4, 0u8..10), 3..=5),
-                prop::collection::vec((0u8..8, -2i64..9), 6),
-                any::<bool>(),
-            )
-        },
+        matrix_shaped_strategy,
         |(blocks, vals, negate): &(Vec<(u8, &str, i64, u8, u8)>, Vec<(u8, i64)>, bool)| {
-            // identifiers I0..Ik, each a conjunction of a (cast) numeric predicate on n / m and a
-            // string predicate; condition I0 or I1 or ..
-            let mut body = String::new();
-            let mut names = vec![];
-            for (i, (kind, op, c, other, wrap)) in blocks.iter().enumerate() {
-                let field = if kind % 2 == 0 { "n" } else { "m" };
-                let pred = match kind / 2 {
-                    0 => format!("    int({field}): '{op}{c}'\n"),
-                    1 => format!("    flt({field}): '{op}{c}.5'\n"),
-                    _ => format!("    {field}: '{op}{c}'\n"),
-                };
-                let second = match other {
-                    0 => "    f1: a\n".to_string(),
-                    1 => format!("    int({}): {}\n", if field == "n" { "m" } else { "n" }, c + 1),
-                    2 => "    f1: 'b*'\n".to_string(),
-                    _ => String::new(),
-                };
-                body.push_str(&format!("  I{i}:\n{pred}{second}"));
-                // the identifier alone, or and-ed in the condition with a comparison of a cast field
-                // and a constant, written field-first or constant-first (a matrix row that holds a
-                // comparison cell)
-                let cop = if *op == "=" { "==" } else { op };
-                let other_field = if field == "n" { "m" } else { "n" };
-                names.push(match wrap {
-                    4 => format!("(I{i} and int({other_field}) {cop} {})", c + 1),
-                    5 => format!("(I{i} and {} {cop} int({other_field}))", c + 1),
-                    6 => format!("({c}.5 {cop} flt({field}) and I{i})"),
-                    7 => format!("(I{i} and {} {cop} int({field}))", c - 1),
-                    8 => format!("(flt({other_field}) {cop} {c}.5 and I{i})"),
-                    _ => format!("I{i}"),
-                });
-            }
-            // now and then a field-to-field comparison (only the condition can express it) joins
-            // the chain
-            let mut operands = names.clone();
-            if let Some((k, op, _, _, _)) = blocks.first() {
-                match k % 3 {
-                    0 => operands.insert(1, format!("int(n) {} int(m)", if *op == "=" { "==" } else { op })),
-                    1 => operands.push(format!("flt(m) {} flt(n)", if *op == "=" { "==" } else { op })),
-                    _ => {}
-                }
-            }
-            let cond = operands.join(" or ");
-            let cond = if *negate { format!("not ({cond})") } else { cond };
+            let (cond, body, docs) = matrix_shaped(blocks, vals, *negate);
             let mk = |c: &str| format!("detection:\n{body}  condition: {c}\ntrue_positives: []\ntrue_negatives: []\n");
-            let mut docs = vec![DObj::default()];
-            for (k, v) in vals {
-                let val = match k {
-                    0 => DocVal::Int(*v),
-                    1 => DocVal::UInt(v.unsigned_abs()),
-                    2 => DocVal::Str(v.to_string()),
-                    3 => DocVal::Float(*v as f64 + 0.5),
-                    4 => DocVal::Str(format!("{}.5", v)),
-                    5 => DocVal::Bool(*v % 2 == 0),
-                    6 => DocVal::Float(*v as f64),
-                    _ => DocVal::s("abc"),
-                };
-                for (a, b) in [("n", "m"), ("m", "n")] {
-                    docs.push(DObj(vec![(a.to_string(), val.clone()), ("f1".to_string(), DocVal::s("a"))]));
-                    docs.push(DObj(vec![(a.to_string(), val.clone()), (b.to_string(), DocVal::Int(*v + 1)), ("f1".to_string(), DocVal::s("bc"))]));
-                }
-            }
             let mut c = Case::new("c09.matrix_shaped");
             c.rules = vec![mk(&cond), mk(&format!("not ({cond})"))];
             c.docs = docs;
